@@ -68,8 +68,11 @@ namespace GeographicLib {
           / atan2(        ty - tx , 1 +         tx * ty);
       else {
         tx = 1/tx; ty = 1/ty;
-        r = atan2(base::_fm1 * (ty - tx), base::_e2m1 + tx * ty)
-          / atan2(        ty - tx ,   1   + tx * ty);
+        if (tx == ty)           // reciprocals can coincide even if tx != ty
+          r = base::_fm1 * (1 + tx * tx) / (base::_e2m1 + tx * tx);
+        else
+          r = atan2(base::_fm1 * (ty - tx), base::_e2m1 + tx * ty)
+            / atan2(        ty - tx ,   1   + tx * ty);
       }
     }
     return r;
